@@ -234,13 +234,16 @@ def main():
     try:
         target = rp['target']
         if target not in REPLAYERS:
-            # replayers living in sibling modules
+            # replayers living in sibling modules (they register into this module's table)
             import importlib
+            sys.modules.setdefault('replay', sys.modules['__main__'])
             for m in ('replay_transform', 'replay_io', 'replay_misc'):
                 try:
                     importlib.import_module(m)
-                except ImportError:
-                    pass
+                except ImportError as e:
+                    if m in str(e):
+                        continue
+                    raise
         if target not in REPLAYERS:
             print(json.dumps({'violates': None, 'detail': 'no replayer for ' + target}))
             return
